@@ -458,5 +458,11 @@ pub fn scenario_case(id: u64, seed: u64, case: &Value) -> Vec<Value> {
     sim.browse(d, "_ipp._tcp.local.", false);
     sim.kick(d);
     sim.run_until(t + 1200);
+    // ... and a service with automatic addresses registered now gets the addresses the selections leave enabled:
+    // it is probed and announced on every enabled interface (the monitor's obligations fall due three seconds after the call)
+    let t = sim.t();
+    sim.register(d, auto_service("_http._tcp.local.", "AutoSvc", "autohost.local.", 8080));
+    sim.kick(d);
+    sim.run_until(t + 3600);
     sim.finish()
 }
